@@ -157,7 +157,23 @@ def build(pid, thorough=False):
             if rc3 != 0: res["bad_axioms"]["<leanchecker>"] = [out3[-300:]]
     res["discharged"] = [t for t in res["theorems"] if t not in failing] if not res["bad_axioms"] and not res["forbidden_tokens"] else []
     res["sound"] = res["proofs_ok"] and not res["bad_axioms"] and not res["forbidden_tokens"] and (not res["gen"].get("untranslatable") or res["golden_fallback"])
+    limit_memory()
     return res
+
+def limit_memory():
+    """From here on (the Lean build is over) the harness and the engine under test live in a bounded address space: a change
+    that makes the engine allocate without end (a list extended with itself ...) then fails with MemoryError inside the
+    request at hand - a reportable failure - instead of taking the machine down.  VERIF_MEM_LIMIT_GB overrides (0 = off)."""
+    try:
+        import resource
+        gb = float(os.environ.get("VERIF_MEM_LIMIT_GB", "10"))
+        if gb > 0:
+            lim = int(gb * (1 << 30))
+            soft, hard = resource.getrlimit(resource.RLIMIT_AS)
+            if hard != resource.RLIM_INFINITY: lim = min(lim, hard)
+            resource.setrlimit(resource.RLIMIT_AS, (lim, hard))
+    except Exception:
+        pass
 
 # ---------------------------------------------------------------------------------------------
 def load_known():
